@@ -1574,7 +1574,10 @@ def tt_loglikelihood_row(
     """
     term1 = -np.sum(model_row)
     if isSparse:
-        term2 = np.sum(data_row.transpose() * np.log(model_row.dot(Pi.transpose())))
+        x_row = data_row.transpose()[0]
+        b_pi = model_row.dot(Pi.transpose())
+        skip_zeros = x_row != 0  # 0 * log(m) = 0 for an explicitly stored zero
+        term2 = np.sum(x_row[skip_zeros] * np.log(b_pi[skip_zeros]))
     else:
         b_pi = model_row.dot(Pi.transpose())
         skip_zeros = data_row != 0
@@ -1834,8 +1837,9 @@ def tt_loglikelihood(
         A = Model.factor_matrices[0][xsubs[:, 0], :]
         for n in range(1, N):
             A *= Model.factor_matrices[n][xsubs[:, n], :]
+        skip_zeros = Data.vals[:, 0] != 0  # 0 * log(m) = 0 for a stored zero
         return float(
-            np.sum(Data.vals * np.log(np.sum(A, axis=1))[:, None])
+            np.sum(Data.vals[skip_zeros, 0] * np.log(np.sum(A, axis=1)[skip_zeros]))
             - np.sum(Model.factor_matrices[0])
         )
     dX = Data.to_tenmat(np.array([1], order=Data.order), copy=False).data
